@@ -80,103 +80,93 @@ theorem i32_gt_iff (a b : Int32) : a > b ↔ a.toInt > b.toInt := by
 theorem i32_ge_iff (a b : Int32) : a ≥ b ↔ a.toInt ≥ b.toInt := by
   show b ≤ a ↔ _; rw [i32_le_iff]
 
+/-- a `bind` whose first computation succeeds with a value that satisfies `P` (the computation
+    itself is taken from the goal by unification, it is never written down in the proofs) -/
+theorem bind_ex {α β : Type} {e : Res α} {k : α → Res β} {Q : β → Prop} (P : α → Prop)
+    (h1 : ∃ a, e = Res.ok a ∧ P a) (h2 : ∀ a, P a → ∃ r, k a = Res.ok r ∧ Q r) :
+    ∃ r, Res.bind e k = Res.ok r ∧ Q r := by
+  obtain ⟨a, rfl, ha⟩ := h1
+  exact h2 a ha
+
 /-- invariant of the entries of the stack at index `j` -/
 def StackOK (d : List GItem) (j : Int32) : Prop :=
   ∀ it ∈ d, 0 ≤ it.n.toInt ∧ 0 ≤ it.j.toInt ∧ it.j.toInt ≤ j.toInt
 
+/-- The inner loop.  State in declaration order `(f, stack, left)`, result `(code, f, stack, left)`.
+    The proof decides every `if` of the translated text by `omega` from the case of the model
+    (`simp (disch := omega) only [… if_pos, if_neg]`), so the order, the polarity and the number of
+    the `if`s do not matter. -/
 theorem pop_loop_eq (grow : Nat → Nat → Nat) (n minLen : Int32) (sa : GSlice Int32) (j : Int32)
     (hj0 : 0 ≤ j.toInt) (hjc : j.toInt.toNat ≤ sa.arr.length) :
-    ∀ (d : List GItem) (fuel : Nat) (stack : GSlice GItem) (f : Log) (left : Int32) (out : List Callback),
+    ∀ (d : List GItem) (fuel : Nat) (f : Log) (stack : GSlice GItem) (left : Int32) (out : List Callback),
       d.length < fuel → GWF stack → stack.data = d.reverse → d ≠ [] → StackOK d j →
       0 ≤ left.toInt → left.toInt ≤ j.toInt → f = out.map (cbOf sa) →
-      ∃ stack' left' code,
-        suffix_scanLCP_loop_2 grow n minLen sa j fuel stack f left =
-          Res.ok (code, stack',
-            (popLoop minLen.toInt n.toInt j.toInt.toNat left.toInt.toNat (d.map ofItem) out).2.map (cbOf sa), left') ∧
-        GWF stack' ∧
+      ∃ r, suffix_scanLCP_loop_2 grow n minLen sa j fuel f stack left = Res.ok r ∧
+        (r.2.1 = (popLoop minLen.toInt n.toInt j.toInt.toNat left.toInt.toNat (d.map ofItem) out).2.map (cbOf sa) ∧
+        GWF r.2.2.1 ∧
         match (popLoop minLen.toInt n.toInt j.toInt.toNat left.toInt.toNat (d.map ofItem) out).1 with
-        | some st' => code = 1 ∧ ∃ d', stack'.data = d'.reverse ∧ st' = d'.map ofItem ∧ d' ≠ [] ∧
+        | some st' => r.1 = 1 ∧ ∃ d', r.2.2.1.data = d'.reverse ∧ st' = d'.map ofItem ∧ d' ≠ [] ∧
             d'.length ≤ d.length + 1 ∧ StackOK d' j
-        | none => code = 2 := by
+        | none => r.1 = 2) := by
   intro d
   induction d with
   | nil => intro _ _ _ _ _ _ _ _ h; exact absurd rfl h
   | cons t0 d1 ih =>
-    intro fuel stack f left out hfuel hw hdata _ hok hl0 hlj hf
+    intro fuel f stack left out hfuel hw hdata _ hok hl0 hlj hf
     obtain ⟨fuel', rfl⟩ : ∃ k, fuel = k + 1 := ⟨fuel - 1, by simp at hfuel; omega⟩
     have hdata' : stack.data = d1.reverse ++ [t0] := by rw [hdata, List.reverse_cons]
     obtain ⟨hlen, hidx, s', hsl, hsd, hsw, hsl'⟩ := glast ({ n := 0, j := 0 } : GItem) stack hw _ _ hdata'
     obtain ⟨ht0n, ht0j, ht0jj⟩ := hok t0 (by simp)
-    rw [suffix_scanLCP_loop_2, hidx]
-    simp only [bind_ok, List.map_cons, popLoop]
     have hofn : (ofItem t0).n = t0.n.toInt := rfl
     have hofj : (ofItem t0).j = t0.j.toInt.toNat := rfl
-    by_cases h1 : n > t0.n
+    have hslice := gslice_ok sa t0.j.toInt j.toInt t0.j.toInt.toNat j.toInt.toNat (by omega) (by omega) (by omega) hjc
+    rw [suffix_scanLCP_loop_2]
+    simp only [hidx, hsl, hslice, bind_ok, List.map_cons, popLoop, hofn, hofj]
+    rcases Int.lt_trichotomy n.toInt t0.n.toInt with hlt | heq | hgt
+    · -- pop
+      generalize hout' : (if t0.n.toInt ≥ minLen.toInt then out ++ [(t0.n.toInt.toNat, t0.j.toInt.toNat, j.toInt.toNat)] else out) = out'
+      simp (disch := omega) only [i32_gt_iff, i32_ge_iff, i32_lt_iff, i32_le_iff, i32_eq_iff, if_pos, if_neg]
+      refine bind_ex (fun fj => fj = out'.map (cbOf sa)) ?_ ?_
+      · subst hf hout'
+        by_cases h3 : t0.n.toInt ≥ minLen.toInt
+        · simp (disch := omega) only [if_pos, if_neg]
+          refine ⟨_, rfl, ?_⟩
+          simp only [List.map_append, List.map_cons, List.map_nil, cbOf, Int.toNat_of_nonneg ht0n]
+        · simp (disch := omega) only [if_pos, if_neg]
+          exact ⟨_, rfl, rfl⟩
+      · intro fj hfj
+        cases d1 with
+        | nil =>
+          have : s'.len = 0 := by simpa using hsl'
+          simp (disch := omega) only [Int.ofNat_eq_natCast, if_pos, if_neg, List.map_nil]
+          exact ⟨_, rfl, hfj, hsw, rfl⟩
+        | cons t1 d2 =>
+          have : s'.len = d2.length + 1 := by simpa using hsl'
+          simp (disch := omega) only [Int.ofNat_eq_natCast, if_pos, if_neg, List.map_cons]
+          have hok1 : StackOK (t1 :: d2) j := fun it hit => hok it (by simp at hit ⊢; right; exact hit)
+          obtain ⟨r, e1, e2, e3, e4⟩ := ih fuel' fj s' t0.j out'
+            (by simp at hfuel ⊢; omega) hsw (by rw [hsd]) (by simp) hok1 ht0j ht0jj hfj
+          simp only [List.map_cons] at e2 e4
+          refine ⟨r, e1, e2, e3, ?_⟩
+          revert e4
+          split
+          · rintro ⟨hc, d', h1, h2, h3, h4, h5⟩
+            exact ⟨hc, d', h1, h2, h3, by simp at h4 ⊢; omega, h5⟩
+          · exact id
+    · -- equal: nothing happens
+      simp (disch := omega) only [i32_gt_iff, i32_ge_iff, i32_lt_iff, i32_le_iff, i32_eq_iff, if_pos, if_neg]
+      exact ⟨_, rfl, by rw [hf], hw, rfl, t0 :: d1, hdata, by simp, by simp, by simp, hok⟩
     · -- push
-      have h1' : n.toInt > (ofItem t0).n := by rw [hofn]; exact (i32_gt_iff _ _).1 h1
-      simp only [h1, h1', if_true]
+      simp (disch := omega) only [i32_gt_iff, i32_ge_iff, i32_lt_iff, i32_le_iff, i32_eq_iff, if_pos, if_neg]
       obtain ⟨ad, aw⟩ := gappend_data ({ n := 0, j := 0 } : GItem) grow stack hw ({ n := n, j := left } : GItem)
-      refine ⟨_, left, 1, by rw [hf], aw, rfl, ({ n := n, j := left } : GItem) :: t0 :: d1, ?_, ?_, by simp, by simp, ?_⟩
+      refine ⟨_, rfl, by rw [hf], aw, rfl, ({ n := n, j := left } : GItem) :: t0 :: d1, ?_, ?_, by simp, by simp, ?_⟩
       · rw [ad, hdata']; simp
       · simp [ofItem]
       · intro it hit
         simp only [List.mem_cons] at hit
         rcases hit with rfl | hit
-        · have := (i32_gt_iff _ _).1 h1
-          exact ⟨by simp; omega, hl0, hlj⟩
+        · exact ⟨by simp; omega, hl0, hlj⟩
         · exact hok it (by simpa using hit)
-    · have h1' : ¬ n.toInt > (ofItem t0).n := by rw [hofn]; exact fun h => h1 ((i32_gt_iff _ _).2 h)
-      simp only [h1, h1', if_false]
-      by_cases h2 : n = t0.n
-      · have h2' : n.toInt = (ofItem t0).n := by rw [hofn, h2]
-        simp only [if_pos h2, if_pos h2']
-        refine ⟨stack, left, 1, by rw [hf], hw, rfl, t0 :: d1, hdata, by simp, by simp, by simp, hok⟩
-      · have h2' : ¬ n.toInt = (ofItem t0).n := by rw [hofn]; exact fun h => h2 ((i32_eq_iff _ _).2 h)
-        simp only [h2, h2', if_false]
-        -- the callback
-        generalize hout' : (if (ofItem t0).n ≥ minLen.toInt then out ++ [((ofItem t0).n.toNat, (ofItem t0).j, j.toInt.toNat)] else out) = out'
-        have hjoin : (if t0.n ≥ minLen then
-              Res.bind (GSlice.slice sa t0.j.toInt j.toInt) fun t_2 =>
-                Res.ok (f ++ [(t0.n.toInt, t_2)])
-            else Res.ok f) = Res.ok (out'.map (cbOf sa)) := by
-          by_cases h3 : t0.n ≥ minLen
-          · have h3' : (ofItem t0).n ≥ minLen.toInt := by rw [hofn]; exact (i32_ge_iff _ _).1 h3
-            simp only [h3, h3', if_true] at hout' ⊢
-            rw [gslice_ok sa t0.j.toInt j.toInt t0.j.toInt.toNat j.toInt.toNat (by omega) (by omega) (by omega) hjc]
-            simp only [bind_ok]
-            have hcb : cbOf sa ((ofItem t0).n.toNat, (ofItem t0).j, j.toInt.toNat) =
-                (t0.n.toInt, ({ arr := sa.arr.drop t0.j.toInt.toNat, len := j.toInt.toNat - t0.j.toInt.toNat } : GSlice Int32)) := by
-              show (((t0.n.toInt.toNat : Nat) : Int),
-                ({ arr := sa.arr.drop t0.j.toInt.toNat, len := j.toInt.toNat - t0.j.toInt.toNat } : GSlice Int32)) = _
-              rw [Int.toNat_of_nonneg ht0n]
-            rw [← hout', hf, List.map_append, List.map_cons, List.map_nil, hcb]
-          · have h3' : ¬ (ofItem t0).n ≥ minLen.toInt := by rw [hofn]; exact fun h => h3 ((i32_ge_iff _ _).2 h)
-            simp only [h3, h3', if_false] at hout' ⊢
-            rw [← hout', hf]
-        rw [hjoin]
-        simp only [bind_ok]
-        rw [hsl]
-        simp only [bind_ok]
-        cases d1 with
-        | nil =>
-          have : s'.len = 0 := by simpa using hsl'
-          simp only [this, List.map_nil]
-          refine ⟨s', t0.j, 2, by simp, hsw, rfl⟩
-        | cons t1 d2 =>
-          have hne : ¬ (Int.ofNat s'.len = 0) := by
-            rw [hsl']; simp; omega
-          simp only [hne, if_false, List.map_cons]
-          have hok1 : StackOK (t1 :: d2) j := fun it hit => hok it (by simp at hit ⊢; right; exact hit)
-          obtain ⟨stack', left', code, e1, e2, e3⟩ := ih fuel' s' (out'.map (cbOf sa)) t0.j out'
-            (by simp at hfuel ⊢; omega) hsw (by rw [hsd]) (by simp) hok1 ht0j ht0jj rfl
-          simp only [List.map_cons] at e1 e3
-          refine ⟨stack', left', code, by rw [e1, hofj], e2, ?_⟩
-          rw [hofj]
-          revert e3
-          split
-          · rintro ⟨hc, d', h1, h2, h3, h4, h5⟩
-            exact ⟨hc, d', h1, h2, h3, by simp at h4 ⊢; omega, h5⟩
-          · exact id
 
 /-! ## the outer loop (scan) -/
 
@@ -200,59 +190,51 @@ theorem popLoop_neg (minLen : Int) (j : Nat) :
 theorem stackOK_mono {d : List GItem} {j j' : Int32} (h : StackOK d j) (hjj : j.toInt ≤ j'.toInt) : StackOK d j' :=
   fun it hit => ⟨(h it hit).1, (h it hit).2.1, by have := (h it hit).2.2; omega⟩
 
+/-- The outer loop.  State in declaration order `(f, stack, j)`.  The clamped table entry `n` is
+    whatever computation the translated text binds first (inline `if`s, or a helper unfolded by
+    `gen_helper`); only its value is specified (`bind_ex`). -/
 theorem scan_loop_eq (grow : Nat → Nat → Nat) (lcp sa : GSlice Int32) (maxLen minLen : Int32)
     (hl : GWF lcp) (hnn : NonNeg lcp) (h31 : lcp.len ≤ 2147483647) (hcap : lcp.len ≤ sa.arr.length) :
-    ∀ (m fuel : Nat) (j : Int32) (stack : GSlice GItem) (f : Log) (d : List GItem) (out : List Callback),
+    ∀ (m fuel : Nat) (f : Log) (stack : GSlice GItem) (j : Int32) (d : List GItem) (out : List Callback),
       1 ≤ j.toInt → j.toInt.toNat + m = lcp.len + 1 → 1 ≤ m → d.length + 2 * m ≤ fuel →
       GWF stack → stack.data = d.reverse → d ≠ [] → StackOK d j → f = out.map (cbOf sa) →
-      ∃ j' stack', suffix_scanLCP_loop_1 grow lcp maxLen minLen sa fuel j stack f =
-        Res.ok (j', stack',
-          (scanFrom (absI32 lcp) minLen.toInt maxLen.toInt j.toInt.toNat (d.map ofItem) out).map (cbOf sa)) := by
+      ∃ r, suffix_scanLCP_loop_1 grow lcp maxLen minLen sa fuel f stack j = Res.ok r ∧
+        r.1 = (scanFrom (absI32 lcp) minLen.toInt maxLen.toInt j.toInt.toNat (d.map ofItem) out).map (cbOf sa) := by
   intro m
   induction m with
   | zero => intro _ _ _ _ _ _ _ _ h; omega
   | succ m' ih =>
-    intro fuel j stack f d out hj1 hjm _ hfuel hw hdata hne hok hf
+    intro fuel f stack j d out hj1 hjm _ hfuel hw hdata hne hok hf
     obtain ⟨fuel', rfl⟩ : ∃ k, fuel = k + 1 := ⟨fuel - 1, by omega⟩
     have hjr := i32_range j
     have hlen32 : (Int32.ofInt (Int.ofNat lcp.len)).toInt = (lcp.len : Int) :=
       i32_ofInt _ (by show -2147483648 ≤ (lcp.len : Int); omega) (by show (lcp.len : Int) < 2147483648; omega)
     have hsize : (absI32 lcp).size = lcp.len := absI32_size hl
+    have hleft : (j - 1).toInt = j.toInt - 1 := by
+      rw [i32_sub _ _ (by rw [i32_one]; omega) (by rw [i32_one]; omega), i32_one]
+    rw [suffix_scanLCP_loop_1]
+    simp only [gen_helper, bind_ok]
     -- the clipped value n
-    have hn : ∃ nn : Int32,
-        (if j < (Int32.ofInt (Int.ofNat lcp.len)) then
-            Res.bind (GSlice.index (0 : Int32) lcp j.toInt) fun t_1 =>
-              Res.ok (if t_1 > maxLen then maxLen else t_1)
-          else Res.ok (-1)) = Res.ok nn ∧
-        nn.toInt = (if j.toInt.toNat < (absI32 lcp).size
-          then min (((absI32 lcp).getD j.toInt.toNat 0 : Nat) : Int) maxLen.toInt else -1) := by
-      by_cases hlt : j < Int32.ofInt (Int.ofNat lcp.len)
-      · have hlt' : j.toInt.toNat < lcp.len := by
-          have := (i32_lt_iff _ _).1 hlt; rw [hlen32] at this; omega
-        simp only [hlt, if_true, hsize, hlt']
-        rw [gindex_ok (0 : Int32) lcp j.toInt j.toInt.toNat (by omega) hlt']
-        simp only [bind_ok]
+    refine bind_ex (fun nn : Int32 => nn.toInt = (if j.toInt.toNat < (absI32 lcp).size
+          then min (((absI32 lcp).getD j.toInt.toNat 0 : Nat) : Int) maxLen.toInt else -1)) ?_ ?_
+    · rw [hsize]
+      by_cases hlt' : j.toInt.toNat < lcp.len
+      · have hidx := gindex_ok (0 : Int32) lcp j.toInt j.toInt.toNat (by omega) hlt'
+        simp (disch := omega) only [i32_gt_iff, i32_ge_iff, i32_lt_iff, i32_le_iff, i32_eq_iff, hlen32,
+          if_pos, if_neg, hidx, bind_ok]
+        refine ⟨_, rfl, ?_⟩
         have hx0 := hnn _ hlt'
         rw [absI32_getD hl _ hlt']
         generalize (lcp.arr[j.toInt.toNat]?).getD 0 = x at hx0
         have hxi : ((i32n x : Nat) : Int) = x.toInt := by unfold i32n; omega
         rw [hxi]
-        by_cases hgt : x > maxLen
-        · have := (i32_gt_iff _ _).1 hgt
-          exact ⟨maxLen, by simp [hgt], by omega⟩
-        · have : ¬ x.toInt > maxLen.toInt := fun h => hgt ((i32_gt_iff _ _).2 h)
-          exact ⟨x, by simp [hgt], by omega⟩
-      · have hlt' : ¬ j.toInt.toNat < lcp.len := by
-          intro h; apply hlt; rw [i32_lt_iff, hlen32]; omega
-        simp only [hlt, if_false, hsize, hlt']
-        exact ⟨-1, rfl, i32_neg_one⟩
-    obtain ⟨nn, hn1, hn2⟩ := hn
-    have hleft : (j - 1).toInt = j.toInt - 1 := by
-      rw [i32_sub _ _ (by rw [i32_one]; omega) (by rw [i32_one]; omega), i32_one]
-    rw [suffix_scanLCP_loop_1]
-    simp only [hn1, bind_ok]
-    obtain ⟨stack', left', code, e1, e2, e3⟩ := pop_loop_eq grow nn minLen sa j (by omega) (by omega)
-      d fuel' stack f (j - 1) out (by omega) hw hdata hne hok (by omega) (by omega) hf
+        split <;> omega
+      · simp (disch := omega) only [i32_gt_iff, i32_ge_iff, i32_lt_iff, i32_le_iff, i32_eq_iff, hlen32,
+          if_pos, if_neg, bind_ok]
+        exact ⟨_, rfl, i32_neg_one⟩
+    intro nn hn2
+    obtain ⟨⟨code, f', stack', left'⟩, e1, e2, e3, e4⟩ := pop_loop_eq grow nn minLen sa j (by omega) (by omega)
+      d fuel' f stack (j - 1) out (by omega) hw hdata hne hok (by omega) (by omega) hf
     rw [e1]
     simp only [bind_ok]
     rw [scanFrom]
@@ -260,20 +242,21 @@ theorem scan_loop_eq (grow : Nat → Nat → Nat) (lcp sa : GSlice Int32) (maxLe
     simp only [hle, if_true]
     rw [← hn2]
     have hleftn : (j - 1).toInt.toNat = j.toInt.toNat - 1 := by rw [hleft]; omega
-    rw [hleftn] at e3 ⊢
-    generalize hpr : popLoop minLen.toInt nn.toInt j.toInt.toNat (j.toInt.toNat - 1) (d.map ofItem) out = pr at e3 ⊢
+    rw [hleftn] at e2 e4
+    generalize hpr : popLoop minLen.toInt nn.toInt j.toInt.toNat (j.toInt.toNat - 1) (d.map ofItem) out = pr at e2 e4 ⊢
     obtain ⟨o, out'⟩ := pr
+    simp only at e2 e3 e4
     cases o with
     | none =>
-      simp only at e3
-      subst e3
-      simp only [show ¬ ((2 : Nat) = 1) by decide, if_false]
-      exact ⟨j, stack', rfl⟩
+      simp only at e4
+      subst e4
+      simp (disch := omega) only [if_pos, if_neg]
+      exact ⟨_, rfl, e2⟩
     | some st' =>
-      simp only at e3
-      obtain ⟨hc, d', h1, h2, h3, h4, h5⟩ := e3
+      simp only at e4
+      obtain ⟨hc, d', h1, h2, h3, h4, h5⟩ := e4
       subst hc
-      simp only [if_true]
+      simp (disch := omega) only [if_pos, if_neg]
       -- j < len(lcp), otherwise n = -1 and the stack would have been emptied
       have hjlt : j.toInt.toNat < lcp.len := by
         apply Classical.byContradiction
@@ -289,12 +272,12 @@ theorem scan_loop_eq (grow : Nat → Nat → Nat) (lcp sa : GSlice Int32) (maxLe
         simp at this
       have hj1' : (j + 1).toInt = j.toInt + 1 := by
         rw [i32_add _ _ (by rw [i32_one]; omega) (by rw [i32_one]; omega), i32_one]
-      obtain ⟨j', s'', e⟩ := ih fuel' (j + 1) stack' (out'.map (cbOf sa)) d' out'
-        (by omega) (by rw [hj1']; omega) (by omega) (by omega) e2 h1 h3
-        (stackOK_mono h5 (by omega)) rfl
-      refine ⟨j', s'', ?_⟩
+      obtain ⟨r, e, er⟩ := ih fuel' f' stack' (j + 1) d' out'
+        (by omega) (by rw [hj1']; omega) (by omega) (by omega) e3 h1 h3
+        (stackOK_mono h5 (by omega)) e2
+      refine ⟨r, e, ?_⟩
       have hjs : (j.toInt + 1).toNat = j.toInt.toNat + 1 := by omega
-      rw [e, hj1', h2, hjs]
+      rw [er, hj1', h2, hjs]
 
 /-- `make([]item, 1, c)` for any capacity `c ≥ 1`: a stack that holds one zero entry -/
 theorem bind_make {β : Type} (c : Int) (hc : 1 ≤ c) (k : GSlice GItem → Res β) (r : Res β)
@@ -319,17 +302,21 @@ theorem gen_scanLCP (grow : Nat → Nat → Nat) (fuel : Nat) (sa lcp : GSlice I
   unfold suffix_scanLCP
   apply bind_make _ (by decide)
   intro s0 hw0 hd0
-  obtain ⟨j', s', e⟩ := scan_loop_eq grow lcp sa maxLen minLen hl hnn h31 hcap lcp.len fuel 1
-    s0 [] [({ n := 0, j := 0 } : GItem)] []
+  obtain ⟨r, e, er⟩ := scan_loop_eq grow lcp sa maxLen minLen hl hnn h31 hcap lcp.len fuel []
+    s0 1 [({ n := 0, j := 0 } : GItem)] []
     (by rw [i32_one]; omega) (by rw [i32_one]; omega) (by omega) (by show 1 + 2 * lcp.len ≤ fuel; omega)
     hw0 (by rw [hd0]; rfl) (by simp)
     (by intro it hit; simp at hit; subst hit; simp [i32_zero, i32_one]) rfl
-  simp only [e, bind_ok, scanLCP, i32_one]
+  simp only [e, bind_ok, er, scanLCP, i32_one]
   rfl
 
 /-- G02: `Segments` = `LZ.segments`: the two argument panics, the early returns (`maxLen < minLen`,
     empty `sa`, `minLen > MaxInt32`), the clamp of `maxLen` to MaxInt32, then the scan.  The log of
-    the callback `f` is the model's callback list. -/
+    the callback `f` is the model's callback list.
+
+    The proof follows the cases of the MODEL and decides every `if` of the translated text by
+    `omega`; the two `int32` arguments of the scan are taken from the goal by unification (`rw [gen_scanLCP … _ _ …]`),
+    only their values are proved. -/
 theorem gen_segments (grow : Nat → Nat → Nat) (fuel : Nat) (sa lcp : GSlice Int32) (minLen maxLen : Int)
     (hsa : GWF sa) (hl : GWF lcp) (hnn : NonNeg lcp) (h31 : lcp.len ≤ 2147483647)
     (hf : 2 * lcp.len + 3 ≤ fuel) :
@@ -339,44 +326,26 @@ theorem gen_segments (grow : Nat → Nat → Nat) (fuel : Nat) (sa lcp : GSlice 
       | some cbs => Res.ok (cbs.map (cbOf sa)) := by
   unfold suffix_Segments segments
   rw [absI32_size hl]
+  have h32 : (2147483647 : Int32).toInt = 2147483647 := by decide
   by_cases h1 : sa.len = lcp.len
-  · have h1' : ¬ (Int.ofNat sa.len ≠ Int.ofNat lcp.len) := by simp [h1]
-    have h1'' : ¬ (sa.len ≠ lcp.len) := by simp [h1]
-    rw [if_neg h1', if_neg h1'']
-    by_cases h2 : minLen < 0
-    · rw [if_pos h2, if_pos h2]
-    · rw [if_neg h2, if_neg h2]
-      by_cases h3 : maxLen < minLen ∨ sa.len = 0 ∨ minLen > 2147483647
-      · have h3' : (maxLen < minLen ∨ Int.ofNat sa.len = 0) ∨ minLen > 2147483647 := by
-          rcases h3 with h | h | h
-          · exact Or.inl (Or.inl h)
-          · exact Or.inl (Or.inr (by simp [h]))
-          · exact Or.inr h
-        rw [if_pos h3', if_pos h3]
-        rfl
-      · have h3' : ¬ ((maxLen < minLen ∨ Int.ofNat sa.len = 0) ∨ minLen > 2147483647) := by
-          intro h
-          apply h3
-          rcases h with (h | h) | h
-          · exact Or.inl h
-          · exact Or.inr (Or.inl (by simpa using h))
-          · exact Or.inr (Or.inr h)
-        rw [if_neg h3', if_neg h3]
-        have hmin : 0 ≤ minLen ∧ minLen ≤ 2147483647 ∧ minLen ≤ maxLen ∧ 1 ≤ sa.len := by
-          refine ⟨by omega, ?_, ?_, ?_⟩ <;> (apply Classical.byContradiction; intro hc; apply h3; omega)
-        have hcl : ∃ mx : Int, (if maxLen > 2147483647 then (2147483647 : Int) else maxLen) = mx ∧
-            0 ≤ mx ∧ mx ≤ 2147483647 := by
-          by_cases hm : maxLen > 2147483647
-          · exact ⟨2147483647, by simp [hm], by omega, by omega⟩
-          · exact ⟨maxLen, by simp [hm], by omega, by omega⟩
-        obtain ⟨mx, hmx, hmx0, hmx1⟩ := hcl
-        simp only [hmx]
-        have hcap : lcp.len ≤ sa.arr.length := by unfold GWF at hsa; omega
-        rw [gen_scanLCP grow fuel sa lcp (Int32.ofInt minLen) (Int32.ofInt mx) hl hnn (by omega) h31 hcap hf]
-        simp only [bind_ok, List.nil_append]
-        rw [i32_ofInt minLen (by omega) (by omega), i32_ofInt mx (by omega) (by omega)]
-  · have h1' : Int.ofNat sa.len ≠ Int.ofNat lcp.len := fun e => h1 (Int.ofNat.inj e)
-    rw [if_pos h1', if_pos h1]
+  · by_cases h2 : minLen < 0
+    · simp (disch := omega) only [Int.ofNat_eq_natCast, if_pos, if_neg]
+    · -- every atomic condition of the early returns is decided, so that grouping and order of
+      -- the `||` chain in the source do not matter
+      by_cases ha : maxLen < minLen
+      · simp (disch := omega) only [Int.ofNat_eq_natCast, if_pos, if_neg, List.map_nil]
+      by_cases hb : sa.len = 0
+      · simp (disch := omega) only [Int.ofNat_eq_natCast, if_pos, if_neg, List.map_nil]
+      by_cases hc : minLen > 2147483647
+      · simp (disch := omega) only [Int.ofNat_eq_natCast, if_pos, if_neg, List.map_nil]
+      have hcap : lcp.len ≤ sa.arr.length := by unfold GWF at hsa; omega
+      rcases Int.lt_trichotomy maxLen 2147483647 with hm | hm | hm
+      all_goals try subst hm
+      all_goals
+        simp (disch := omega) only [Int.ofNat_eq_natCast, if_pos, if_neg]
+        rw [gen_scanLCP grow fuel sa lcp _ _ hl hnn (by omega) h31 hcap hf]
+        simp (disch := omega) only [bind_ok, List.nil_append, i32_ofInt, h32]
+  · simp (disch := omega) only [Int.ofNat_eq_natCast, if_pos, if_neg]
 
 end LZ.GenSuffix
 
